@@ -18,6 +18,7 @@ BLF = os.path.join(SRC, 'Vector', 'BLF')
 FIX = os.path.join(BLF, 'tests', 'unittests')
 CACHE = os.environ.get('VERIF_CACHE', os.path.join(VERIF, '.cache'))
 HARNESS = os.path.join(VERIF, 'harness')
+OUT = os.environ.get('VERIF_OUT', VERIF)      # where evidence/ and replays/ go (overridden when trying patches on a scratch tree)
 GUARD = 'VECTOR_BLF_VERIF'
 NCPU = int(os.environ.get('VERIF_JOBS', '16'))
 
@@ -390,7 +391,7 @@ class Result:
         self.assumptions = []
         self.exhaustive = None
         self.inconclusive = []
-        self.replay_dir = os.path.join(VERIF, 'replays', prop)
+        self.replay_dir = os.path.join(OUT, 'replays', prop)
 
     def violation(self, key, detail, replay_blob=None):
         key = re.sub(r'\s+', '_', key)
@@ -438,8 +439,8 @@ class Result:
                   assumptions=self.assumptions, wall_s=round(time.time() - self.t0, 2), violations=len(new))
         if self.inconclusive:
             ev['coverage']['inconclusive'] = self.inconclusive[:20]
-        os.makedirs(os.path.join(VERIF, 'evidence'), exist_ok=True)
-        p = os.path.join(VERIF, 'evidence', self.prop + '.json')
+        os.makedirs(os.path.join(OUT, 'evidence'), exist_ok=True)
+        p = os.path.join(OUT, 'evidence', self.prop + '.json')
         with open(p + '.tmp', 'w') as f:
             json.dump(ev, f, indent=1, default=str)
         os.replace(p + '.tmp', p)
@@ -475,7 +476,7 @@ class Sharded:
     timeout, or exits with the watchdog code 77, is a 'hang' at its last announced case: the case is re-run once in
     isolation; only a reproduced hang is reported as a violation, otherwise it is inconclusive."""
 
-    def __init__(self, exe, argv_fn, total, env=None, chunk=None, timeout=900, case_timeout=60, max_restarts=40, tag='w',
+    def __init__(self, exe, argv_fn, total, env=None, chunk=None, timeout=900, case_timeout=90, max_restarts=40, tag='w',
                  single_fn=None):
         self.exe, self.argv_fn, self.total = exe, argv_fn, total
         self.env = env or san_env()
@@ -484,7 +485,9 @@ class Sharded:
         self.viols = []     # (key, text, case)
         self.stats = []
         self.crashes = []   # (case, key, report)
-        self.hangs = []     # (case, reproduced)
+        self.hangs = []     # (case, reproduced, text)
+        self.confirmed = []
+        self.stopped_early = False
         self.problems = []  # harness failures (exit 2 etc.)
         self.cases = 0
         self.single_fn = single_fn or (lambda c: argv_fn(c, c + 1))
@@ -550,7 +553,18 @@ class Sharded:
                 except ValueError:
                     c = w['a']
                 if killed or rc == 77:
-                    self.hangs.append(c)
+                    conf = self._confirm(c)
+                    self.confirmed.append(conf)
+                    if conf[1]:
+                        # a reproduced hang is a violation for certain: stop exploring instead of paying the watchdog again and again
+                        for w2 in running:
+                            w2['p'].kill()
+                            w2['p'].wait()
+                            self._collect(w2, True)
+                        running = []
+                        queue = []
+                        self.stopped_early = True
+                        break
                 elif rc == 42:
                     pass    # the schedule controller reported a violation (@viol line already collected) and ended the process
                 elif rc == 2:
@@ -574,20 +588,19 @@ class Sharded:
                     queue.insert(0, (c + 1, w['b']))
                 elif c + 1 < w['b']:
                     self.problems.append('restart budget exhausted; cases %d..%d not run' % (c + 1, w['b']))
-        # confirm hangs in isolation
-        confirmed = []
-        for c in self.hangs[:8]:
-            try:
-                r = subprocess.run([self.exe] + [str(x) for x in self.single_fn(c)], stdout=subprocess.PIPE,
-                                   stderr=subprocess.PIPE, env=self.env, timeout=self.case_timeout, stdin=subprocess.DEVNULL)
-                rep = r.returncode == 77
-                text = r.stderr.decode(errors='replace')[-3000:] + r.stdout.decode(errors='replace')[-1000:]
-            except subprocess.TimeoutExpired as e:
-                rep = True
-                text = ((e.stderr or b'').decode(errors='replace')[-3000:])
-            confirmed.append((c, rep, text))
-        self.hangs = confirmed
+        self.hangs = self.confirmed
         return self
+
+    def _confirm(self, c):
+        try:
+            r = subprocess.run([self.exe] + [str(x) for x in self.single_fn(c)], stdout=subprocess.PIPE,
+                               stderr=subprocess.PIPE, env=self.env, timeout=self.case_timeout, stdin=subprocess.DEVNULL)
+            rep = r.returncode == 77
+            text = r.stderr.decode(errors='replace')[-3000:] + r.stdout.decode(errors='replace')[-1000:]
+        except subprocess.TimeoutExpired as e:
+            rep = True
+            text = ((e.stderr or b'').decode(errors='replace')[-3000:])
+        return (c, rep, text)
 
 
 def merge_stats(stats):
